@@ -1,34 +1,46 @@
 pub mod common;
 pub mod c01;
 pub mod c02;
+pub mod c03;
 pub mod c04;
 pub mod c05;
+pub mod c06;
 pub mod c07;
 pub mod c08;
+pub mod c09;
 pub mod c10;
 pub mod c11;
 pub mod c12;
 pub mod c13;
+pub mod c14;
 pub mod c15;
 pub mod c16;
 pub mod c17;
+pub mod c18;
 
 use common::Opts;
 pub fn dispatch(id: &str, o: &Opts) -> i32 {
     match id {
         "C01" => c01::main(o),
         "C02" => c02::main(o),
+        "C03" => c03::main(o),
         "C04" => c04::main(o),
         "C05" => c05::main(o),
+        "C06" => c06::main(o),
         "C07" => c07::main(o),
         "C08" => c08::main(o),
+        "C09" => c09::main(o),
         "C10" => c10::main(o),
         "C11" => c11::main(o),
         "C12" => c12::main(o),
         "C13" => c13::main(o),
+        "C14" => c14::main(o),
         "C15" => c15::main(o),
         "C16" => c16::main(o),
         "C17" => c17::main(o),
+        "C18" => c18::main(o),
+        "RECORD-WIRE" => c18::record(),
+        "COMPARE-UNPATCHED" => c18::compare_unpatched(),
         "RECORD-GENS" => c12::record_fixtures(),
         _ => {
             eprintln!("unknown property {}", id);
